@@ -390,6 +390,13 @@ class Evaluator(CallMixin, StmtMixin):
                 p = stores[0].value.id
                 redef = any(isinstance(n, ast.Assign) and any(isinstance(t, ast.Name) and t.id == p for t in n.targets) for n in ast.walk(fn))
                 return (anns[p], c.module, redef)
+            if len(stores) == 1 and isinstance(stores[0].value, ast.IfExp):
+                # self.x = <default> if p is None else p
+                v = stores[0].value
+                names = {n.id for n in ast.walk(v) if isinstance(n, ast.Name) and n.id in anns}
+                branches = [b for b in (v.body, v.orelse) if isinstance(b, ast.Name) and b.id in anns]
+                if len(names) == 1 and len(branches) == 1:
+                    return (anns[branches[0].id], c.module, True)
             return None
         return None
 
